@@ -87,6 +87,33 @@ def run(ctx, chk):
     chk.floor("sequence conversions", nconv, 3 * len(chk.configs))
 
 
+U8_INDEX = re.compile(r"^core::slice::index::<impl std::ops::Index<std::ops::(Range|RangeFrom|RangeTo|RangeFull)(<usize>)?> for \[u8\]>::index$")
+
+
+def u8_window(t):
+    """a byte slice as a window of the input: (base, lo, hi) with hi None = to the end of base; nested re-slicing composes"""
+    if isinstance(t, tuple) and t[0] == "call" and U8_INDEX.match(t[1]) and len(t[2]) == 2:
+        inner = u8_window(t[2][0])
+        if inner is None:
+            return None
+        base, lo, hi = inner
+        kind = U8_INDEX.match(t[1]).group(1)
+        r = t[2][1]
+        if kind == "RangeFull":
+            return inner
+        if not (isinstance(r, tuple) and r[0] == "agg"):
+            return None
+        if kind == "Range":
+            return (base, add(lo, r[4][0]), add(lo, r[4][1]))
+        if kind == "RangeFrom":
+            return (base, add(lo, r[4][0]), hi)
+        if kind == "RangeTo":
+            return (base, lo, add(lo, r[4][0]))
+    if t == P(1):
+        return (t, c(0), None)
+    return None
+
+
 def check_trim(chk, cfg, b):
     """trim_u8, decided per outcome of the two searches (position / rposition are matched as Some / None whether the code says
     unwrap_or / map_or or an explicit match):
@@ -132,29 +159,34 @@ def check_trim(chk, cfg, b):
         it1 = [x for x in p.calls if viter.match(x[0]) and x[1] == (P(1),)]
         start = F(("downcast", T1, 1, "Some"), "0") if st[T1] == 1 else None
         x, d = pipes.strict_parse_of(cfg, p.ret)
-        if x is None or not an.is_call(x, re.compile(r"Index<std::ops::Range<usize>> for \[u8\]>::index$")) or x[2][0] != P(1):
+        win = u8_window(x) if x is not None else None
+        if win is None or win[0] != P(1) or win[2] is None:
             okp = False
             why.append("result is not the strict parse of a sub-range of the input: " + d[:120])
             continue
-        rng = x[2][1]
-        if not (isinstance(rng, tuple) and rng[0] == "agg" and rng[1] == "std::ops::Range"):
-            okp = False
-            continue
-        gs, ge = rng[4]
+        CN = lambda t: nf.canon(nf.Norm()(t))
+        gs, ge = win[1], win[2]
         if st[T1] == 1:
-            okstart = gs == start
+            okstart = CN(gs) == CN(start)
         else:
-            okstart = gs == vlen or gs == c(0)
+            okstart = CN(gs) == CN(vlen) or CN(gs) == CN(c(0))
         if not (ok1 and okstart and len(it1) >= 1):
             oks = False
             why.append("start on %s: %s (predicate %s)" % ("Some" if st[T1] else "None", show(gs)[:60], d1))
-        tail = ("call", "core::slice::index::<impl std::ops::Index<std::ops::RangeFrom<usize>> for [u8]>::index", (P(1), ("agg", "std::ops::RangeFrom", 0, "RangeFrom", (gs,))), None)
-        it2 = [x for x in p.calls if viter.match(x[0]) and x[1] == (tail,)]
+        # the second search runs over v[start..] (however that tail is spelled)
+        it2 = []
+        for x2 in p.calls:
+            if viter.match(x2[0]) and len(x2[1]) == 1:
+                w2 = u8_window(x2[1][0])
+                if w2 is not None and w2[0] == P(1) and w2[2] is None and CN(w2[1]) == CN(gs) and x2[1][0] != P(1):
+                    it2.append(x2)
+        if st[T1] == 0 and CN(gs) == CN(c(0)):
+            it2 = it2 or [x2 for x2 in p.calls if viter.match(x2[0]) and x2[1] == (P(1),)]
         if st[T2] == 1:
-            okend = nf.canon(nf.Norm()(ge)) == nf.canon(add(add(gs, F(("downcast", T2, 1, "Some"), "0")), c(1)))
+            okend = CN(ge) == nf.canon(add(add(CN(gs), F(("downcast", T2, 1, "Some"), "0")), c(1)))
         else:
-            okend = ge == gs
-        if not (ok2 and okend and len(it2) == 1):
+            okend = CN(ge) == CN(gs)
+        if not (ok2 and okend and len(it2) >= 1):
             oke = False
             why.append("end on %s: %s (predicate %s)" % ("Some" if st[T2] else "None", show(ge)[:80], d2))
     full = seen == {(1, 1), (1, 0), (0, 1), (0, 0)} or seen == {(1, 1), (1, 0), (0, 0)} or seen == {(1, 1), (1, 0), (0, 1), (0, 0)}
